@@ -30,6 +30,8 @@ EXPLANATION = (
     "This decides the 'failed operation leaves operand untouched and never panics' clause on all paths of the "
     "code, not the view/model agreement of values."
 )
+EXPLANATION_ADD = ' Additions: (SIB-expiry) view and model compute the expiry per segment; (SIB-reverse-index) both mirror the current hop/info index as (count - current) - 1; armed subtraction underflow in StandardPathView::try_reverse (dev).'
+EXPLANATION = EXPLANATION + EXPLANATION_ADD
 RESIDUAL = [
     "equality of view and model answers at every position (value property)",
     "reversal is an involution and preserves the logical position (value property)",
